@@ -78,6 +78,9 @@ def check(ctx: Ctx):
     ctx.rule("R-NEIGHBORS", "building node: neighbours each once, self excluded; relations = those containing the variable")
     ctx.rule("R-DFS", "token copied; parent set once; pseudo parents from the token; back edge recorded and not propagated; child only if unvisited and not pseudo parent")
     ctx.rule("R-FOREST", "a tree per connected component until no variable is left; links and node created for every node of every tree")
+    ctx.rule("R-ACCUM", "containers that collect over a whole loop (all roots, all nodes) are created before the loop")
+    from .. import accumrules
+    accumrules.check_accumulators(ctx, "R-ACCUM", [PT], min_loops=8)
     ctx.rule("R-LINKTABLE", "link kinds agree between writer, whitelist and reader; each kind built from its own list")
     m = repo.module(PT)
     ctx.touch(m)
@@ -276,6 +279,7 @@ def check(ctx: Ctx):
 
 _P = "pydcop/computations_graph/pseudotree.py"
 VARIANTS = [
+    ("pseudotree_nodes_reset_per_root", _P, "        links = defaultdict(lambda: [])  # type: Dict[str, List]\n        _nodes = {}\n        for root in self._roots:\n", "        for root in self._roots:\n            links = defaultdict(lambda: [])  # type: Dict[str, List]\n            _nodes = {}\n", "break", "R-ACCUM"),
     ("isolated_fast_path", _P, "    roots = []\n    while len(variables) != 0:", "    roots = []\n    for v in list(variables):\n        if not any(v in c.dimensions and len(c.dimensions) > 1 for c in constraints):\n            roots.append(_BuildingNode(v))\n            variables.remove(v)\n    while len(variables) != 0:", "break", "R-FOREST"),
     ("neighbors_not_deduplicated", _P, "            for n in nodes:\n                if n.variable in dim_vars and n not in node_neighbors:\n                    node_neighbors.append(n)", "            node_neighbors.extend(n for n in nodes if n.variable in dim_vars)", "break", "R-NEIGHBORS"),
     ("node_creation_dedented", _P, "            for n in _visit_tree(root):\n                _nodes[n.name] = PseudoTreeNode(n.variable, n.relations, links[n.name])", "        for n in _visit_tree(root):\n            _nodes[n.name] = PseudoTreeNode(n.variable, n.relations, links[n.name])", "break", "R-FOREST"),
